@@ -89,6 +89,8 @@ Ops ==
   {Op(k, x, p[1], p[1], p[2], IF w THEN {p[2]} ELSE {}, FALSE) :
       k \in VaultOps, x \in Amts, p \in Pairs, w \in BOOLEAN}
   \cup {Op(k, x, "b", "a", "a", {"a"}, FALSE) : k \in VaultOps, x \in Amts \ {0}}
+  \* the vault's own address as receiver: shares it holds are shares like any other
+  \cup {Op(k, x, V, "a", "a", {"a"}, FALSE) : k \in Enter, x \in {1, 3}}
   \cup {Op(k, 1, "a", "a", "a", {"a"}, TRUE) : k \in Enter}
   \cup {Op(k, 1, "a", "a", "c", {"a"}, FALSE) : k \in Leave}
   \cup {Op("donate", x, None, own, None, {own}, FALSE) : x \in {1, 3}, own \in {"a", "b"}}
